@@ -242,7 +242,7 @@ class PGate(e1.Op):
         step = [round(rng.uniform(0.05, 0.5), 3), round(rng.uniform(-0.5, 0.5), 3) if rng.random() < 0.5 else 0.0]
         if rng.random() < 0.2:
             step = [0.0, step[0]]          # purely imaginary step (real-time evolution)
-        kinds = ["nn_exp", "nn_exp", "local_exp", "path2"] if t.N > 2 else ["nn_exp", "local_exp"]
+        kinds = ["nn_exp", "nn_exp", "local_exp", "path2", "path2", "mpo"] if t.N > 2 else ["nn_exp", "local_exp"]      # multi-site gates stack fused bond legs
         if f == "SpinlessFermions":
             kinds += ["hopping", "hopping", "occupation"]
         elif f == "SpinfulFermions":
